@@ -102,10 +102,13 @@ def main(argv):
     per_contract_cfgs = {}
     for name, tagged in sel:
         c = reg[name]
-        try:
-            cfgs = list(c.configs(tier, prop))
-        except TypeError:
-            cfgs = list(c.configs(tier))
+        cfgs = list(c.configs(tier))
+        stride = 1
+        if tier == 'quick' and getattr(c, 'primary', None) is not None and prop not in c.primary:
+            stride = getattr(c, 'secondary_stride', 4)
+        if stride > 1:
+            # secondary contract for this property: every stride-th configuration, offset chosen by the seed
+            cfgs = cfgs[seed % stride::stride]
         per_contract_cfgs[name] = len(cfgs)
         tasks += [(name, cfg) for cfg in cfgs]
     results = runner.run_tasks(tasks)
@@ -169,7 +172,7 @@ def main(argv):
         if per_contract.get(name, {}).get('obligations', 0) == 0:
             checker_errors.append((name, None, 'zero obligations generated for %s (vacuous run)' % name))
         for cl in tagged:
-            if cl == '*':
+            if cl in ('*', 'no_exception') or cl in getattr(c, 'conditional_clauses', ()):
                 continue
             if reached.get((name, cl), 0) == 0:
                 checker_errors.append((name, None, 'clause %s of %s was never reached by any path (vacuous)' % (cl, name)))
